@@ -422,6 +422,9 @@ class NumpyConverter(object):
         if tf_xl not in self.trace_headers:
             self.trace_headers[tf_xl] = np.broadcast_to(self.xlines, shape)
 
+        # Header arrays are stored in the order of the header-word table
+        self.trace_headers = collections.OrderedDict(sorted(self.trace_headers.items()))
+
         # Do some sanity checks
         assert data_array.dtype == np.float32
         assert data_array.shape == (len(self.ilines), len(self.xlines), len(self.samples))
@@ -440,8 +443,9 @@ class NumpyConverter(object):
     @staticmethod
     def write_headers(header_info, out_filehandle):
         for header_array in header_info.headers_dict.values():
-            # Pad to 512-bytes for page blobs
-            out_filehandle.write(header_array.tobytes() + bytes(-len(header_array.tobytes()) % 512))
+            # Header values are stored as 32-bit integers, pad to 512-bytes for page blobs
+            header_bytes = np.asarray(header_array).astype(np.int32).tobytes()
+            out_filehandle.write(header_bytes + bytes(-len(header_bytes) % 512))
 
     @staticmethod
     def write_hash(hash, out_filehandle):
